@@ -29,6 +29,11 @@ class _NP(object):
             x = core.try_concretize_str(x)
             if isinstance(x, str):
                 return _np.float64(x)
+            # float() ignores surrounding whitespace: a token with symbolic padding around a
+            # forced numeral is still that numeral
+            xs = core.try_concretize_str(x.strip()) if core.OPTS["concretize"] else x
+            if isinstance(xs, str):
+                return _np.float64(xs)
             return symnum.np_float64(x)
         if isinstance(x, symnum.SymNum):
             return x if x.kind == "float" else symnum.SymNum("float", x.text)
@@ -88,7 +93,15 @@ class _NP(object):
             for t in toks:
                 t = core.try_concretize_str(t)
                 if not isinstance(t, str):
-                    raise core.EngineUnsupported("genfromtxt stub: a data token is not determined by the path condition")
+                    from . import symre
+                    from .values import B_decide
+
+                    # not a forced text: numpy would still reject it if it cannot be a float literal
+                    if not B_decide(z.Or(symre.fullmatch_expr(symnum.FLOAT_RE, t), symre.fullmatch_expr(symnum.SPECIAL_RE, t))):
+                        raise ValueError("could not convert string to float: <symbolic>")
+                    t = core.try_concretize_str(t, retry=True)  # the grammar decision may have pinned it down
+                    if not isinstance(t, str):
+                        raise core.EngineUnsupported("genfromtxt stub: a numeric data token is not determined by the path condition")
                 vals.append(float(t))  # ValueError for non-numeric text, as with loose=False
             if ncols is None:
                 ncols = len(vals)
